@@ -45,6 +45,52 @@ def diff_keys(a, b):
     return [k for k in a if json.dumps(a[k], sort_keys=True) != json.dumps(b[k], sort_keys=True)]
 
 
+def replay_request(client: bytes, k: int):
+    """structured facts about the k-th request of a client stream, obtained by replaying the stream through the real
+    reading functions (h11 buffer + readers, read_request_head, expected_http_body_size, validate_headers) without any layer:
+    {"valid": validate_headers ok, "expect100", "framing": "chunked"|"length"|"eof", "body": "eom"|"protocol-error"|"trailers"|
+    "incomplete"}; None if the stream has no k-th request head"""
+    import h11
+    from h11._receivebuffer import ReceiveBuffer
+    from mitmproxy.net.http import http1, validate
+    from mitmproxy.proxy.layers.http._http1 import make_body_reader
+    buf = ReceiveBuffer(); buf += client
+    i = 0
+    while True:
+        lines = buf.maybe_extract_lines()
+        while lines == []:
+            lines = buf.maybe_extract_lines()
+        if lines is None:
+            return None
+        try:
+            req = http1.read_request_head([bytes(x) for x in lines])
+            size = http1.expected_http_body_size(req)
+        except ValueError:
+            return None
+        facts = {"framing": "chunked" if size is None else "eof" if size == -1 else "length",
+                 "expect100": req.headers.get("expect", "").lower() == "100-continue"}
+        try:
+            validate.validate_headers(req); facts["valid"] = True
+        except ValueError:
+            facts["valid"] = False
+        reader = make_body_reader(size)
+        body = "incomplete"
+        try:
+            while True:
+                ev = reader(buf)
+                if ev is None: break
+                if isinstance(ev, h11.EndOfMessage):
+                    body = "trailers" if ev.headers else "eom"; break
+        except h11.ProtocolError:
+            body = "protocol-error"
+        facts["body"] = body
+        if i == k:
+            return facts
+        if body != "eom":
+            return None
+        i += 1
+
+
 class Check(PropertyCheck):
     prop = "C02"
     design_ref = "§5 C02"
@@ -89,6 +135,9 @@ class Check(PropertyCheck):
                     "harness/common/refparsers.py for comparing what the peers receive semantically"]
     parallel = False
     has_model = False
+
+    def setup(self, tier):
+        self.known_selftest()
 
     def generate(self, rng, tier):
         # every split point of short streams first
@@ -147,24 +196,79 @@ class Check(PropertyCheck):
         return fails
 
     def known(self, case, obs, failure):
-        """F-C02b: the request fails in both runs (same flows, same hooks); the only difference is that the whole-stream
-        run lacks the proxy's own pending output for that request (400 page / 100 Continue), because the body's protocol
-        error arrived in the same segment as the head and closed the client connection first."""
+        """F-C02b, exactly as recorded: (input class) the LAST request of the client stream — the one that fails in both runs —
+        is framed as chunked and its body violates the chunked framing (h11 protocol error, or a trailer section), and its head
+        makes the proxy answer itself: a 400 page because validate_headers rejects it, or 100 Continue because it carries
+        Expect: 100-continue; (failure) both runs have identical flows and upstream bytes, the client connection is closed in
+        both, and the ONLY difference is that the whole-stream run lacks exactly that one pending answer (ERR400 resp. the
+        interim 100) which the segmented run delivered."""
         if not failure.startswith("outcome of the segmented schedule differs"):
             return None
         w, s = obs["whole"], obs["seg"]
         d = set(diff_keys(w, s))
         if not d or not d <= {"errs", "client", "ctail"}:
             return None
-        a, b = (w, s) if len(w["client"]) + len(w["errs"]) <= len(s["client"]) + len(s["errs"]) else (s, w)
-        if b["client"][:len(a["client"])] != a["client"] or b["errs"][:len(a["errs"])] != a["errs"]:
+        if not w["flows"] or not w["flows"][-1]["error"] or "client" not in w["closed"] or "client" not in s["closed"]:
             return None
-        extra = b["client"][len(a["client"]):]
-        if any(m[0] != 100 for m in extra) or any(e != "ERR400" for e in b["errs"][len(a["errs"]):]):
+        # the whole-stream run is the one that lacks something, and it lacks exactly one item
+        if s["client"][:len(w["client"])] != w["client"] or s["errs"][:len(w["errs"])] != w["errs"]:
             return None
-        if not w["flows"] or not w["flows"][-1]["error"] or "client" not in w["closed"]:
+        extra_c, extra_e = s["client"][len(w["client"]):], s["errs"][len(w["errs"]):]
+        if len(extra_c) + len(extra_e) != 1:
+            return None
+        facts = replay_request(unhx(case["client_hex"]), len(w["flows"]) - 1)
+        if facts is None or facts["framing"] != "chunked" or facts["body"] not in ("protocol-error", "trailers"):
+            return None
+        hooks = w["flows"][-1]["hooks"]
+        if extra_e == ["ERR400"]:
+            if facts["valid"] or hooks != ["requestheaders", "error"]:
+                return None
+        elif extra_c and extra_c[0][0] == 100 and extra_c[0][3] == "":
+            if not facts["valid"] or not facts["expect100"] or hooks[:1] != ["requestheaders"]:
+                return None
+        else:
             return None
         return "F-C02b"
+
+    def known_selftest(self):
+        """positive witness + near misses of the F-C02b classifier (notes/known_audit.txt); AssertionError = INFRA"""
+        import copy
+        head = b"GET / HTTP/1.1\r\nHost: origin.example\r\nTransfer-Encoding: gzip\r\nTransfer-Encoding: chunked\r\n\r\n"
+        def mk(client, cut):
+            return {"mode": "reverse", "client_hex": hx(client), "resps": [], "edits": [], "ccuts": [cut], "scuts": [], "sched": []}
+        fail = "outcome of the segmented schedule differs from whole-stream delivery in ['errs']"
+        pos = mk(head + b"Z\r\n", len(head))
+        obs = self.impl(pos)
+        fs = self.oracle(pos, obs)
+        assert fs and self.known(pos, obs, fs[0]) == "F-C02b", ("F-C02b witness no longer classified", fs)
+        # positive: the 100-continue flavour, with trailers as the framing violation
+        head2 = b"POST / HTTP/1.1\r\nHost: origin.example\r\nExpect: 100-continue\r\nTransfer-Encoding: chunked\r\n\r\n"
+        pos2 = mk(head2 + b"0\r\nX-T: v\r\n\r\n", len(head2))
+        obs2 = self.impl(pos2)
+        fs2 = self.oracle(pos2, obs2)
+        assert fs2 and self.known(pos2, obs2, fs2[0]) == "F-C02b", ("F-C02b (100-continue) witness no longer classified", fs2, obs2)
+        # (a) same input class, different failure: another clause of the oracle / a different difference
+        assert self.known(pos, obs, "response #0 on the client connection has status 200, flow #0 recorded 404") is None
+        o = copy.deepcopy(obs); o["seg"]["errs"] = ["ERR502"]
+        assert self.known(pos, o, fail) is None, "a different error page must not be excused"
+        o = copy.deepcopy(obs); o["seg"]["servers"] = {"server0": [[], "None", ""]}
+        assert self.known(pos, o, fail) is None, "a difference in what the origin received must not be excused"
+        o = copy.deepcopy(obs); o["seg"]["flows"][-1]["hooks"] = ["requestheaders", "request", "error"]
+        assert self.known(pos, o, fail) is None, "a difference in the hook sequence must not be excused"
+        o = copy.deepcopy(obs); o["whole"], o["seg"] = o["seg"], o["whole"]
+        assert self.known(pos, o, fail) is None, "the segmented run lacking the page is a different failure"
+        o = copy.deepcopy(obs); o["seg"]["errs"] = ["ERR400", "ERR400"]
+        assert self.known(pos, o, fail) is None
+        # (b) neighbouring inputs with the same kind of difference (observation transplanted)
+        near1 = mk(head + b"0\r\n\r\n", len(head))                         # invalid head, body well-formed
+        assert self.known(near1, obs, fail) is None, "well-formed chunked body is outside the class"
+        head3 = b"GET / HTTP/1.1\r\nHost: origin.example\r\nContent-Length: 3\r\nContent-Length: 4\r\n\r\n"
+        near2 = mk(head3 + b"Z\r\n", len(head3))                            # invalid head, but not chunked framing
+        assert self.known(near2, obs, fail) is None, "not chunked: outside the class"
+        head4 = b"POST / HTTP/1.1\r\nHost: origin.example\r\nTransfer-Encoding: chunked\r\n\r\n"
+        near3 = mk(head4 + b"Z\r\n", len(head4))                            # valid head without Expect: nothing pending
+        assert self.known(near3, obs, fail) is None and self.known(near3, obs2, fail) is None, "valid head, no Expect: outside the class"
+        assert self.known(pos2, obs, fail) is None, "a 400 page for a head that validates is a different failure"
 
     def classify(self, case, obs):
         if not obs["nseg"]: return None
